@@ -17,7 +17,7 @@ DEFAULT_PROFILE = dict(
   p_connect=0.3, p_lambda=0.12, max_block_targets=3,
   expr_depth=3, p_if=0.4, p_for=0.25, p_tmp=0.2, p_free=0.15,
   p_big_width=0.04, p_reset_in_ff=0.5, translatable=False,
-  p_var_index=0.2, min_blocks=0, p_read_own=0.05,
+  p_var_index=0.2, min_blocks=0, p_read_own=0.05, yosys=False,
 )
 
 
@@ -34,6 +34,8 @@ def profile(name):
     p.update(p_split=0.8, p_struct=0.6, n_structs=(1, 2), p_connect=0.4, n_wire=(3, 7))
   elif name == "translatable":
     p.update(translatable=True, p_big_width=0.0)
+  elif name == "translatable_yosys":
+    p.update(translatable=True, p_big_width=0.0, yosys=True)
   else:
     raise ValueError(name)
   p["name"] = name
@@ -58,6 +60,23 @@ def has_const_subtree(e):
     if x[0] in ("bin", "shift", "cmp", "inv", "ife", "zext", "sext", "trunc", "concat", "red", "cast") and is_const(x):
       return True
   return False
+
+
+def yosys_safe(e):
+  """Known finding F18: the Yosys backend emits trunc() of a struct field or of a sub-component
+  port with the un-flattened name (`1'(i0.f1)`, `1'(m0[1].i0)`).  Use the equivalent slice read."""
+  if isinstance(e, list):
+    if e and e[0] == "trunc" and e[1][0] == "rd" and len(e[1]) == 3:
+      path, w0 = e[1][1], e[1][2]
+      if len(path) > 1:
+        w = e[2]
+        if path[-1][0] == "s":
+          return ["rd", path[:-1] + [["s", path[-1][1], path[-1][1] + w]], w]
+        if path[-1][0] == "b":
+          return ["rd", path, 1]
+        return ["rd", path + [["s", 0, w]], w]
+    return [yosys_safe(x) for x in e]
+  return e
 
 
 class Atom:
@@ -220,7 +239,10 @@ class CompGen:
             return ["rd", base + [["b", off + lo]], 1]
           return ["rd", base + [["s", off + lo, off + lo + w]], w]
         return ["trunc", e, w]
-      return [c.choice(["zext", "zext", "sext"]), e, w]
+      kind = c.choice(["zext", "zext", "sext"])
+      if kind == "sext" and self.P["translatable"] and a.path[-1][0] not in ("a", "s"):
+        kind = "zext"
+      return [kind, e, w]
     return self.const(w)
 
   def var_index_read(self, w, env):
@@ -272,6 +294,8 @@ class CompGen:
         e = self._expr(w, depth, env)
       else:
         e = self.leaf_nonconst(w, env)
+    if self.P["yosys"]:
+      e = yosys_safe(e)
     return e
 
   def leaf_nonconst(self, w, env):
@@ -322,7 +346,8 @@ class CompGen:
       kind = c.choice(["zext", "sext"])
       if kind == "sext" and P["translatable"]:
         # known finding F17: sext() of a non-trivial expression is mistranslated; plain reads only
-        cands = [a for a in self.atoms if isinstance(a.t, int) and a.w == w2]
+        # (F19: sext() of a list / array element is mistranslated too: attribute-ended reads and slices only)
+        cands = [a for a in self.atoms if isinstance(a.t, int) and a.w == w2 and a.path[-1][0] in ("a", "s")]
         if not cands:
           return ["zext", self._expr(w2, depth - 1, env), w]
         return ["sext", ["rd", c.choice(cands).path, w2], w]
@@ -452,12 +477,9 @@ class CompGen:
       body = [["if", ["rd", a.path + [["vb", ["lv", "i"]]], 1], body,
                [["assign", path + [["vb", ["lv", "i"]]], self.expr(1, 1, env)]]]]
     self.nblk += 1
-    if c.random() < 0.25:
-      if self.P["translatable"]:
-        # the RTLIR type checker rejects a negative loop end: stop at 0 and do index 0 separately
-        from .refmodel import _subst
-        return {"k": "comb", "name": name,
-                "stmts": [["for", "i", t - 1, 0, -1, body]] + _subst(body, "i", 0)}
+    if c.random() < 0.25 and not self.P["translatable"]:
+      # (the RTLIR type checker rejects a negative loop end, so translatable designs count upwards;
+      #  splitting off index 0 would make one block write x[i] and x[0:1], the order-dependent shape F21)
       return {"k": "comb", "name": name, "stmts": [["for", "i", t - 1, -1, -1, body]]}
     return {"k": "comb", "name": name, "stmts": [["for", "i", 0, t, 1, body]]}
 
